@@ -184,11 +184,20 @@ def bs_state():
 import contextlib as _contextlib
 import sys as _sys
 
-# the harness itself formats / parses arbitrarily large integers (evidence, replay files, JSON
-# metadata read back): lift the interpreter's limit for the harness ...
-HARNESS_INT_LIMIT = 0
-if hasattr(_sys, "set_int_max_str_digits"):
-    _sys.set_int_max_str_digits(HARNESS_INT_LIMIT)
+
+@_contextlib.contextmanager
+def lifted_int_limit():
+    """For harness-side code that must parse / format integers of any size (reading back JSON
+    metadata written by a command).  Library calls are NOT made under this."""
+    if not hasattr(_sys, "set_int_max_str_digits"):
+        yield
+        return
+    old = _sys.get_int_max_str_digits()
+    _sys.set_int_max_str_digits(0)
+    try:
+        yield
+    finally:
+        _sys.set_int_max_str_digits(old)
 
 
 @_contextlib.contextmanager
